@@ -703,11 +703,11 @@ def simplify_mt(rng, tier):
 def run(out, ctx):
     tier, seed = ctx["tier"], ctx["seed"]
     rng = random.Random(seed * 104729 + 4)
-    nh = 36 if tier == "quick" else 400
+    nh = 36 if tier == "quick" else 150   # thorough sized to ~15 min on an idle machine
     hs = [gen_history(rng, tier) for _ in range(nh)]
     # other strategies / likelihoods (own PRNG stream): multitask kernel + likelihood, KISS-GP (interpolated strategy, WISKI)
     rng2 = random.Random(seed * 7919 + 41)
-    n_mt, n_kiss = (12, 6) if tier == "quick" else (120, 60)
+    n_mt, n_kiss = (12, 6) if tier == "quick" else (48, 24)
     mts = [gen_history(rng2, tier, "mt") for _ in range(n_mt)]
     # make sure the class that works on the unchanged tree (single points, no batch) is present
     mts[:3] = [simplify_mt(rng2, tier) for _ in range(3)]
@@ -744,7 +744,7 @@ def run(out, ctx):
     out.extra["tolerances"] = {"all dense paths (abs+rel)": TOL, "source before/after": "bit-equal",
                                 "model inputs": "implementation's K, m, noise rounded to the dyadic grid 2^-44"}
     evaluate(out, hs, ctx.get("tag", "C04"))
-    check_model_list(out, rng2, tier, 6 if tier == "quick" else 60)
+    check_model_list(out, rng2, tier, 6 if tier == "quick" else 24)
     for h in hs:
         for k in range(1, len(h["steps"]) + 1):
             out.case(dict(pattern=pattern(sub_history(h, k)), lik=h["lik"], flags=h["flags"], n0=h["n0"], kernel=h["kernel"], mean=h["mean"],
